@@ -90,7 +90,7 @@ def initialize_dates_from_taxa(tree, taxa, tag='date'):
     max_date = max(dates)
 
     # parse dates
-    if max_date != 0.0:
+    if max_date != 0.0 or min(dates) != 0.0:
         # time starts at 0
         if min(dates) == 0.0:
             for node in tree.leaf_node_iter():
